@@ -1,5 +1,6 @@
 import SccacheModel.Model.Startup
 import SccacheModel.Model.Idle
+import SccacheModel.Proofs.Shutdown
 
 /-! # C20 — one server per address: cold starts converge, shutdown is graceful, idle exit not before its time
 
@@ -7,6 +8,8 @@ Models: `StartupM` (`Model/Startup.lean`): the OS address table (`bind` on a TCP
 path is unlinked first, so `bind` always succeeds), clients (`connect`; on refusal spawn a server and wait for its
 notification; `AddrInUse` ⇒ reconnect), servers (bind, notify, serve); any number of clients, any interleaving.
 `IdleM` (`Model/Idle.lean`): the inactivity timer with a logical clock.
+`ShutM` (`Model/Shutdown.lean`): the whole life of a running server — serving, drain after a stop request or the idle expiry, exit —
+with connections and a millisecond clock; tied step by step to the real `SccacheServer::run` by `h_server` + `modeld shutdown`.
 Tie: `tools/sys_c20.py` — process census of real cold starts with 2…N simultaneous clients over TCP and over a Unix
 socket, replay of the model's Unix witness on the real binary, stop during an in-flight compile, measured idle exit.
 Partial: schedules of real processes cannot be enumerated; the real runs are checked against what the model allows. -/
@@ -57,5 +60,75 @@ theorem idle_disabled_never_exits (t0 : Nat) (evs : List IdleM.Ev) : (IdleM.run 
 /-- non-vacuity: a request at time 5 re-arms a 10-unit timer; polling at 14 does nothing, at 15 the server exits -/
 example : (IdleM.run (IdleM.init 10 0) [.request 5, .poll 14]).exited = none ∧
           (IdleM.run (IdleM.init 10 0) [.request 5, .poll 14, .poll 15]).exited = some 15 := by decide
+
+section Shutdown
+open ShutM
+
+/-- the grace period of the model is the constant of the source (`SHUTDOWN_TIMEOUT`), in milliseconds -/
+def graceMs : Nat := GenC.shutdownGraceSecs * 1000
+theorem grace_pos : 0 < graceMs := by decide
+
+/-- `idle_drain_not_before`: in every timed history of connections, requests, closes and stop requests, if the server
+    left its serving phase without a stop request, then the idle period `T` had fully elapsed since the last request
+    arrival (and `T ≠ 0`: with the timer disabled it never does) -/
+theorem idle_drain_not_before (T : Nat) (evs : List Ev) (d : Nat)
+    (h : (run (init T graceMs) evs).drainAt = some d) (hs : (run (init T graceMs) evs).byStop = false) :
+    T ≠ 0 ∧ d = (run (init T graceMs) evs).last + T := by
+  have hi := run_inv evs _ (init_inv T graceMs grace_pos)
+  have hp := (run_params evs (init T graceMs)).1
+  have := hi.idle d h hs
+  rw [hp] at this
+  exact this
+
+/-- `stop_is_graceful`: whenever the server has exited at time `e`, the drain began at some `d ≤ e`, the exit came no later
+    than the grace period after it, and **if a connection was still open (a request in flight) the whole grace period had
+    been granted** -/
+theorem stop_is_graceful (T : Nat) (evs : List Ev) (e : Nat) (h : (run (init T graceMs) evs).phase = .exited e) :
+    ∃ d, (run (init T graceMs) evs).drainAt = some d ∧ d ≤ e ∧ e ≤ d + graceMs ∧
+         ((run (init T graceMs) evs).conns ≠ [] → e = d + graceMs) := by
+  have hi := run_inv evs _ (init_inv T graceMs grace_pos)
+  have hp := (run_params evs (init T graceMs)).2
+  obtain ⟨d, h1, h2, h3, h4⟩ := hi.ext e h
+  rw [hp] at h3 h4
+  exact ⟨d, h1, h2, h3, h4⟩
+
+/-- `stop_terminates`: once the drain has begun at `d`, the server is gone by `d + grace` whatever the clients do -/
+theorem stop_terminates (T : Nat) (evs : List Ev) (d : Nat) (h : (run (init T graceMs) evs).drainAt = some d)
+    (ht : d + graceMs ≤ (run (init T graceMs) evs).now) : ∃ e, (run (init T graceMs) evs).phase = .exited e := by
+  have hi := run_inv evs _ (init_inv T graceMs grace_pos)
+  have hp := (run_params evs (init T graceMs)).2
+  cases hph : (run (init T graceMs) evs).phase with
+  | running dl => have := (hi.run_ dl hph).1; rw [this] at h; cases h
+  | draining since =>
+    obtain ⟨h1, _, _, h4⟩ := hi.drn since hph
+    rw [h1] at h; cases h
+    rw [hp] at h4; have : (init T graceMs).grace = graceMs := rfl; omega
+  | exited e => exact ⟨e, rfl⟩
+
+/-- `inflight_served_during_drain`: a connection that is open when the drain begins keeps being served until the grace
+    period is over -/
+theorem inflight_served_during_drain (s : Srv) (since c t : Nat) (hp : s.phase = .draining since) (hc : c ∈ s.conns)
+    (ht : max s.now t < since + s.grace) : (step s (.request t c)).2 = .served := by
+  have hgr : ¬ since + s.grace ≤ max s.now t := by omega
+  show (act (advance s t) (.request t c)).2 = .served
+  rw [adv_drain s t since hp hgr]
+  simp only [act, hp, hc, if_true]
+
+/-- after the drain has begun nobody new is let in -/
+theorem no_new_connection_after_drain (s : Srv) (t since : Nat) (hp : (advance s t).phase = .draining since) :
+    (step s (.connect t)).2 = .refused := by
+  show (act (advance s t) (.connect t)).2 = .refused
+  simp only [act, hp]
+
+/-- non-vacuity (T = 5 s, grace = 10 s): connection 0 opens at 100 ms and asks at 1.2 s; the timer expires at 6.2 s; a connect at
+    7 s is refused, the open connection is still served at 8 s; at 16.2 s the server is gone.  With a stop request at 2 s
+    and the connection closed at 3 s the server exits at 3 s. -/
+example : outs (init 5000 graceMs) [.connect 100, .request 1200 0, .connect 7000, .request 8000 0, .tick 16199, .request 16200 0]
+          = [.accepted 0, .served, .refused, .served, .none, .dead] := by decide
+example : (run (init 5000 graceMs) [.connect 100, .request 1200 0, .tick 20000]).phase = .exited 16200 := by decide
+example : (run (init 5000 graceMs) [.connect 100, .stop 2000 0, .close 3000 0]).phase = .exited 3000 := by decide
+example : (run (init 0 graceMs) [.connect 100, .request 1200 0, .tick 100000000]).phase = .running none := by decide
+
+end Shutdown
 
 end C20
